@@ -18,7 +18,7 @@ from harness import common, par, refwarc
 
 FI_DIR = os.path.join(common.VERIF, 'harness', 'fi')
 FI_SO = os.path.join(FI_DIR, 'fi.so')
-MODES = [('err', 28), ('err', 5), ('sticky', 28), ('short', 28), ('kill_before', 0), ('kill_after', 0), ('kill_torn', 0)]
+MODES = [('err', 28), ('err', 5), ('err', 13), ('err', 1), ('sticky', 28), ('short', 28), ('kill_before', 0), ('kill_after', 0), ('kill_torn', 0)]
 
 
 def ensure_fi():
@@ -68,6 +68,38 @@ def child_main(argv):
         os.environ['FI_ARMED'] = '1'
         try:
             WARCRecorder(prefix, params=params)
+            out = {'raised': None}
+        except BaseException as e:
+            out = {'raised': type(e).__name__, 'text': str(e)[:200], 'is_oserror': isinstance(e, OSError)}
+        os.environ['FI_ARMED'] = '0'
+        with open(result_path, 'w') as f:
+            json.dump(out, f)
+        return
+    if scenario == 'appending':
+        # an earlier run left an archive with records; a new run continues it (--warc-append): the monitored append is
+        # the first one of the new recorder object (its warcinfo record, written by the constructor)
+        first = WARCRecorder(prefix, params=params)
+
+        def make0(i, n):
+            rec = WARCRecord()
+            rec.set_common_fields('resource', 'application/octet-stream')
+            rec.fields['WARC-Target-URI'] = 'urn:x-verif:%d' % i
+            rec.block_file = io.BytesIO(bytes((i * 7 + j * 13) % 251 for j in range(n)))
+            first.set_length_and_maybe_checksums(rec)
+            return rec
+        for i in range(earlier):
+            first.write_record(make0(i, 40 + i))
+        first.close()
+        warc_name = prefix + ('.warc.gz' if compress else '.warc')
+        with open(warc_name, 'rb') as f:
+            snapshot = f.read()
+        with open(os.path.join(workdir, 'snap.bin'), 'wb') as f:
+            f.write(snapshot)
+        with open(os.path.join(workdir, 'meta.json'), 'w') as f:
+            json.dump({'warc': os.path.basename(warc_name), 'snapshot_len': len(snapshot)}, f)
+        os.environ['FI_ARMED'] = '1'
+        try:
+            WARCRecorder(prefix, params=WARCRecorderParams(compress=compress, log=False, temp_dir=workdir, appending=True))
             out = {'raised': None}
         except BaseException as e:
             out = {'raised': type(e).__name__, 'text': str(e)[:200], 'is_oserror': isinstance(e, OSError)}
@@ -227,7 +259,7 @@ def case_worker(job):
                     part.violation('error-swallowed-but-archive-or-journal-bad/' + opclass,
                                    dict(detail, verdict=str(verdict)), replay)
                 elif opclass.endswith(':archive') and op['kind'] in ('write', 'writev', 'pwrite') and \
-                        cfg.get('scenario') in (None, 'plain') and not (len(archive) > len(snapshot) and
+                        cfg.get('scenario') in (None, 'plain', 'appending') and not (len(archive) > len(snapshot) and
                                                                          archive[:len(snapshot)] == snapshot):
                     # the append was reported as done although a write of the archive failed: the record must be there
                     part.violation('append-reported-done-but-record-missing/' + opclass, detail, replay)
@@ -314,7 +346,7 @@ def main():
         return
     check = common.Check('C06', level='fault_enumeration')
     check.rule = ('all (compress, earlier records R, record size, scenario) configurations x every interposed file operation '
-                  'k of the monitored append x 7 fault/kill modes (error once, sticky error, short write then errors, kills); distinct_nontrivial = distinct (compress, R, op kind:file '
+                  'k of the monitored append x 9 fault/kill modes (error once with ENOSPC / EIO / EACCES / EPERM, sticky error, short write then errors, kills); distinct_nontrivial = distinct (compress, R, op kind:file '
                   'role at k, mode, scenario) with the case executed')
     check.trusted_base.append('harness/fi/fi.c LD_PRELOAD interposer (open/write/pwrite/writev/fsync/close/ftruncate/unlink/rename)')
     check.assumptions = ['file operations go through libc wrappers (true for CPython)',
@@ -338,6 +370,9 @@ def main():
     # the first record of a fresh archive (pre-append length 0)
     for compress in (False, True):
         cfgs.append({'compress': compress, 'earlier': 0, 'size': 0, 'scenario': 'fresh'})
+    # a new run that appends to the archive of an earlier one
+    for compress in (False, True):
+        cfgs.append({'compress': compress, 'earlier': 2, 'size': 0, 'scenario': 'appending'})
     # size-based rollover: the archive (and its journal) carry a sequence number in their names
     for compress in (False, True):
         cfgs.append({'compress': compress, 'earlier': 1, 'size': 60, 'scenario': 'rollover'})
@@ -355,6 +390,8 @@ def main():
         check.count('operations_enumerated', len(ops))
         for op in ops:
             for mode, errno_ in MODES:
+                if not check.thorough and (mode, errno_) in (('err', 5), ('err', 1)):
+                    continue        # (quick tier: one errno of each class - ENOSPC and EACCES)
                 jobs.append({'cfg': cfg, 'k': op['n'], 'mode': mode, 'errno': errno_, 'op': op})
     # fault sequences: first error at an archive operation of the append, second error at each of the operations the
     # rollback / clean-up performs afterwards (their indices are learnt from a run with the first fault alone)
